@@ -107,7 +107,7 @@ def workload(ctx, lentil):
         ctx.check(abs(m - lam) <= 7 * np.sqrt(lam / N) and abs(v - lam) <= 7 * np.sqrt((lam + 2 * lam ** 2) / N), 'poisson:moments',
                   'poisson|moments', 'Poisson shot noise does not have mean and variance equal to the signal (7 sigma)',
                   {'lam': lam, 'mean': m, 'var': v})
-        lam = float(10 ** rng.uniform(3, 9))
+        lam = float(10 ** rng.uniform(3, 15))          # well beyond 2**31 and 2**53-ish counts are legal signals
         ctx.case({'gaussian-moments': lam, 'seed': seed}, ['shot:gaussian'])
         x = np.asarray(D.shot_noise(np.full(N, lam).reshape(500, 400), 'gaussian', seed=seed), float)
         ctx.check(bool(np.all(x >= 0) and np.all(x == np.floor(x))), 'gaussian:support', 'gaussian|support',
